@@ -125,11 +125,12 @@ class Keeper:
         if t.endswith("key-attestation"):
             guid = t.split("/")[2]
             a = plan.get("attest", {"kind": "ok"})
-            ok = a["kind"] == "ok"
+            # "lost": the host latches the key but its reply never reaches the guest
+            ok = a["kind"] in ("ok", "lost")
             self.calls.append(("attest", guid, ok, req))
             if a["kind"] == "http":
                 return (a["code"], "text/plain", b"attest failure")
-            if a["kind"] == "reset":
+            if a["kind"] in ("reset", "lost"):
                 return (None, "", b"")
             return (200, "text/plain", b"")
         a = plan.get("acquire", {"kind": "http", "code": 500})
